@@ -992,8 +992,23 @@ def inexact(x):
     return True
 
 
-def draw_real(strategy, n, seed_):
+class _OutOfTime(Exception):
+    pass
+
+
+def draw_real(strategy, n, seed_, time_limit=None):
     out = []
+    if time_limit is not None:
+        # quick tier: an operation whose strategy (almost) starves costs Hypothesis ~1000 attempts; give up instead
+        stop_at, inner = time.time() + time_limit, strategy
+
+        @st.composite
+        def timed(draw):
+            if time.time() > stop_at:
+                raise _OutOfTime()
+            return draw(inner)
+
+        strategy = timed()
 
     @hypothesis.seed(seed_)
     @settings(max_examples=n, database=None, suppress_health_check=list(HealthCheck), phases=[Phase.generate],
@@ -1005,6 +1020,8 @@ def draw_real(strategy, n, seed_):
     try:
         collect()
         return out, None
+    except _OutOfTime:
+        return out, "error:time-limit"
     except SkipTest:
         return out, "skip"
     except Unsatisfiable:
@@ -1013,6 +1030,11 @@ def draw_real(strategy, n, seed_):
         return out, f"KeyError:{e}"
     except (hypothesis.errors.InvalidArgument, hypothesis.errors.FailedHealthCheck) as e:
         return out, f"error:{type(e).__name__}"  # contradictory generated schema (minLength > maxLength …): not judged
+    except (hypothesis.errors.Flaky, hypothesis.errors.FlakyStrategyDefinition, BaseExceptionGroup):
+        # Hypothesis re-runs the execution that raised _OutOfTime and finds it "flaky" (the clock moved on)
+        if time_limit is not None and time.time() > stop_at:
+            return out, "error:time-limit"
+        raise
 
 
 WIRE_PANEL = ["a", "0", "-1", "1.5", "true", "null", "ab c", "x" * 12, "é"]
@@ -1080,11 +1102,11 @@ def labels_real(chk, variant):
     started = time.time()
     for i in range(n_ops):
         template, d, declared, body = gen_real_operation(rng)
-        if not chk.thorough and time.time() - started > 30:
+        if not chk.thorough and time.time() - started > 25:
             # quick tier on a loaded machine: the remaining operations are left to the other seeds / the thorough tier
             # (the generator is still consumed in the same way, so the later mechanisms see the same inputs)
             chk.feature("labels:real:quick-time-budget-reached")
-            chk.notes.append(f"labels:real: operation {i + 1} of {n_ops} not drawn (30 s budget of the quick tier)")
+            chk.notes.append(f"labels:real: operation {i + 1} of {n_ops} not drawn (25 s budget of the quick tier)")
             rng.random()
             continue
         raw = {"openapi": "3.0.2", "info": {"title": "t", "version": "1"}, "paths": {template: {"post": d}}}
@@ -1095,8 +1117,10 @@ def labels_real(chk, variant):
                 continue
             cfg = GenerationConfig(modes=list(modes))
             strat = op.as_strategy(generation_mode=GenerationMode.NEGATIVE, generation_config=cfg)
-            cases, stop = draw_real(strat, n_draws, chk.seed * 100003 + i)
-            chk.feature(f"labels:real:outcome={stop.split(':')[0] if stop else 'cases'}")
+            cases, stop = draw_real(strat, n_draws, chk.seed * 100003 + i, None if chk.thorough else 6)
+            if stop == "error:time-limit":
+                chk.notes.append(f"labels:real: operation {i + 1} given up after 6 s (quick tier); not judged")
+            chk.feature(f"labels:real:outcome={stop if stop == 'error:time-limit' else stop.split(':')[0] if stop else 'cases'}")
             key = {"operation": d, "modes": [m.value for m in modes], "hypothesis_seed": chk.seed * 100003 + i}
             if stop and stop.startswith("KeyError"):
                 chk.violation("C02:negate_constraints:KeyError-exclusive-bound-without-its-dependency",
@@ -2077,7 +2101,9 @@ def explicit_real(chk):
                    "modes": [m.value for m in modes], "hypothesis_seed": seed_}
             with Tap(scripted=False) as tap:
                 strat = op.as_strategy(generation_mode=GenerationMode.NEGATIVE, generation_config=cfg, **kw)
-                cases, stop = draw_real_tapped(strat, n_draws, seed_, tap)
+                # a strategy that starves is tried ~50 times per requested example before Hypothesis gives up
+                n = 3 if name.startswith("non-string-supplied") and not chk.thorough else n_draws
+                cases, stop = draw_real_tapped(strat, n, seed_, tap)
             chk.feature(f"explicit:real:{name.split(':')[0]}:outcome={stop.split(':')[0] if stop else 'cases'}")
             if stop and (stop.startswith("error") or stop.startswith("KeyError")):
                 continue
